@@ -764,7 +764,7 @@ def _filter(repo, col):
     ex = idx.expander(repo, fi)
     r = ex.returns[0] if ex.returns else None
     ok = r is not None and r.op == "attr" and r.name == "view" and _is_self(r.args[0]) and \
-        any(isinstance(c.func, ast.Attribute) and c.func.attr == "set_scope" and unparse(c.func.value) == "view" for c in ex.calls)
+        any(isinstance(c.func, ast.Attribute) and c.func.attr == "set_scope" and ex.term(c.func.value).key() == r.key() for c in ex.calls)
     col.check(ok, R, fi, "scope() returns a fresh view with only the scope changed", "view = self.view; view.set_scope(scope)",
               f"scope returns {r.short() if r else None}", node=fi.node)
     fi = repo.method("Module", "view")
